@@ -1,6 +1,31 @@
 HOOK_COMMITS = ["dcda180"]
 NOT_APPLICABLE = {}
 CHECKS = {
+ "C08": {
+  "technique": "runtime monitoring: random operation histories (edits, re-initialisations, interfaces, simulations, seeding, pickling) replayed on the real model and compared with a freshly built twin by seeded bitwise-equal simulations; before/after snapshots around every simulate step; ASan/UBSan lane in the thorough tier",
+  "text": "Each history provably ends in a target definition; the history model and a twin built in one constructor call must simulate identically from the same seeds in every mode, every simulation must be repeatable, and no simulate step may change the initial condition or a non-rule-assigned parameter; stale interfaces may be refused but must not corrupt later results. Held = no difference on the histories observed.",
+  "note": "Trusted base: equality is between two runs of the same code; models where a rule assigns a parameter are excluded from the equality part; histories are bounded (<= 80 operations) and intermediate definitions are screened for non-explosive dynamics.",
+ },
+ "C09": {
+  "technique": "runtime monitoring: reference rule interpreter re-evaluating every repeated assignment rule on every reported row, plus exact guard / schedule / dt-counter / ode-step invariants, across deterministic, SSA, safe, volume, delay and lineage single-cell simulation",
+  "text": "Models combine chained rules, Heaviside-gated production, a rule zeroing a stored rate constant, a rule scheduled at an exact grid time, a dt counter and an ode rule on top of no / slow / fast reactions (counter species prove >= 10 firings per step). Held = every row consistent and every schedule respected on what was observed.",
+  "note": "Trusted base: vlib/ref.py expression evaluator; dyadic grids; the number of dt-rule applications at the initial instant is not asserted.",
+ },
+ "C15": {
+  "technique": "runtime monitoring: icontract postcondition (observer) on InferenceSetup.cost_function compared with log-prior minus Lp distance to a closed-form simulation; metamorphic partners (column / trajectory permutations, fresh set-up per theta); LL_data checked element-wise; real emcee run observed",
+  "text": "Linear chain models with per-trajectory initial and parameter conditions and grids; the cost returned for sequences of theta (repeats, out-of-support points) must equal the stated posterior, be history-free and permutation-invariant, and LL_data must be aligned by name and row. Held = no deviation on the evaluations observed.",
+  "note": "Trusted base: scipy expm closed form; vlib/ref.py log-priors; tolerance 1e-4*(1+|value|); theta whose prior density underflows are skipped and counted.",
+ },
+ "C17": {
+  "technique": "runtime monitoring: name-aligned observation records (dictionaries, stoichiometry, four rate forms via guarded probes, seeded delay draws, rule effects, seeded simulations incl. lineage) compared between an object and its pickle / deep copy; independence by editing either side; result / state / lineage objects round-tripped",
+  "text": "Models and LineageModels covering every propensity, expression-node, delay, rule, event and splitter type, initialised or not, copied before/after simulations and edits, copies of copies; results, cell states, schnitzes and lineages must survive pickling with data and mutual links. Held = identical records and independent copies on what was observed.",
+  "note": "Trusted base: exact equality of two runs of the same code; shallow copy.copy is not covered; every member type must be reached >= 10 times or the run is inconclusive.",
+ },
+ "C19": {
+  "technique": "runtime monitoring: exact conservation / duplication / volume / link invariants on every partition and every division of simulated lineages; binomial partition counts tested by randomized PIT with the DKW bound (two stages); every reported row checked against the network's own invariants",
+  "text": "Three splitter classes called directly on random mothers, and lineage simulations with every growth / division / death mechanism on plain and safe interfaces (including cells whose total propensity reaches zero). Held = no invariant broken and no law rejected twice on what was observed.",
+  "note": "Trusted base: scipy.stats binomial cdf; harness RNG for the PIT randomisation; lineage models carry no repeated rules so a daughter's first row is the partition itself.",
+ },
  "C04": {
   "technique": "runtime monitoring: reported deterministic trajectories compared with the matrix-exponential solution (linear networks) or two cross-checked high-accuracy scipy integrations of the reference rate equations, over generated networks and uniform/non-uniform grids",
   "text": "Every generated model is simulated through py_simulate_model (frame and result), DeterministicSimulator on plain and safe interfaces; each row is compared with an exact/independent solution within 2e-5*(1+max|x|); row 0 must equal the initial condition. Held = no mismatch on the trajectories observed.",
